@@ -310,6 +310,12 @@ impl SimNet {
                 }
             }
         }
+        // after the rebinding the NAT's old mapping is gone: what the server still sends to the old address is lost
+        if dir == S2C && inner.nat_real == Some(dst) {
+            Self::bump(inner, "fault.sent_to_dead_nat_mapping");
+            inner.log.push(WireEvent { at_ms: now_ms, dir, ordinal: ord, len: data.len(), first: data.first().map(|b| mask_first(*b)).unwrap_or(0), fault: Fault::Drop, queue_drop: false });
+            return;
+        }
         let fault = self.tape.fault(dir, ord);
         // base latency + deterministic per-datagram jitter
         let mut j = self.cfg.jitter_seed ^ ((dir as u64) << 40) ^ ord as u64;
